@@ -101,6 +101,11 @@ def edge_files(r):
     for mk in (collections.OrderedDict, _D):
         out.append(L.Bf3File(mk([("z", "1"), ("m", "3"), ("a", "2")]), [L.mk_comp({5: b"x", 3: b"y"}, b"\x01")]))
     out.append(L.Bf3File({"": "", " k ": "v:w", "ä€": "Ж x"}, [L.mk_comp({}, b"\x01")]))
+    # comment keys / values whose FIRST or LAST character is one that codecs and str methods treat specially (as the first key of
+    # the file, and as a later one): U+FEFF, U+200B, U+00A0 inside, NEL, LS - no colon, no line feed: legal text
+    for ch in ("\ufeff", "\u200b", "\u2060", "\u00ad", "\ufffe", "\u202e"):
+        out.append(L.Bf3File({ch + "Name": "v", "b": ch}, [L.mk_comp({}, b"\x01")]))
+        out.append(L.Bf3File({"a": "1", ch: ch + "x" + ch, "Name" + ch: "v"}, [L.mk_comp({}, b"\x02")]))
     return out
 
 
@@ -149,9 +154,15 @@ def run(tier):
                               {"abstract": comps, "event": ev})
         rep.add_replay("S->C: contents enumerated by TLC (Gen_Bf3) concretised, written and read back by the real code", nrep)
         # --- C->S
-        for f in edge_files(r):
+        for j, f in enumerate(edge_files(r)):
             key = L.gen_key(r)
             L.rec_to_binary(rec, f, 5, key)
+            if j % 3 == 0:
+                try:
+                    tdisk = L.rec_write(rec, f, key, True, wd)
+                    L.rec_read(rec, tdisk, key, True, True, wd, auth=rec.last_written)
+                except UnicodeEncodeError:
+                    pass                                     # (a character the locale's file encoding cannot represent)
             text = L.rec_write(rec, f, key, False, wd)
             L.rec_read(rec, text, key, True, False, wd, auth=rec.last_written)
         skipped = gen_events(rec, r, 120 if tier == "quick" else 3000, wd, rep)
